@@ -1,5 +1,11 @@
 """C20 — protobuf round trip is lossless.
 
+P (real source, all bounds of any magnitude): convert_type_str(proto_type(t), problem) for every Boolean, time, integer and real type -- with each
+bound absent or any integer / rational -- asks the type manager for exactly the type t was built from (same family, same bounds, absent bounds
+stay absent), and raises nothing.  The text in between is modelled exactly (pyvc/segstr.py: literal pieces and printed numbers; `in`, `==`,
+split, strip, int(), Fraction() are decided without looking at digits, or left undecided): the writer's f-string goes through the real
+_IntType.__repr__ / _RealType.__repr__, the reader through its real split / strip / int / Fraction calls.
+
 Bounded run-time contract on ProtobufWriter().convert / ProtobufReader().convert (real code, real protobuf messages,
 serialised to bytes and parsed back in between so that nothing survives by object identity):
   T  type grid: Int/Real fluent and parameter types with every combination of {no bound, negative, zero, positive, huge}
@@ -22,7 +28,6 @@ import unified_planning as up
 from unified_planning.shortcuts import *  # noqa
 from unified_planning.plans import SequentialPlan, TimeTriggeredPlan, ActionInstance
 
-UNITS = []
 
 
 def rt():
@@ -390,9 +395,89 @@ def replay_file(data):
     return {"reproduced": bool(c.failures), "concrete": cc, "observed": [f["what"] for f in c.failures][:5]}
 
 
-LEVEL = "exploration"
+# ======================================================================================================= proved kernel
+import z3
+from pyvc.values import Ref, Opt, SBool, SRef, SInt, SReal, SUnion, Rec, Loc, fresh_name, zbool, zint, zreal, Unsupported as _Unsup
+from pyvc.values import Int as PInt, Real as PReal
+from pyvc.verify import Unit
+from pyvc import builtins as B
+import unified_planning.model.types as _ty
+from contracts.harness import c20 as H20
+
+IntT20 = Ref("IntType20", _ty._IntType, fields={"_lower_bound": Opt(PInt), "_upper_bound": Opt(PInt)})
+RealT20 = Ref("RealType20", _ty._RealType, fields={"_lower_bound": Opt(PReal), "_upper_bound": Opt(PReal)})
+BoolT20 = Ref("BoolType20", _ty._BoolType)
+TimeT20 = Ref("TimeType20", _ty._TimeType)
+TM20 = Ref("TypeManager20")
+Env20 = Ref("Environment20", fields={"type_manager": TM20})
+Problem20 = Ref("Problem20", fields={"environment": Env20})
+
+
+def _rec(kind):
+    def m(eng, st, selfv, args, kw):
+        lo = kw.get("lower_bound", args[0] if len(args) > 0 else None)
+        hi = kw.get("upper_bound", args[1] if len(args) > 1 else None)
+        st.ghost["built"] = st.ghost.get("built", ()) + ((kind, lo, hi),)
+        yield st, Ref("BuiltType20").fresh("built")
+    return m
+
+
+TM20.methods.update({"IntType": _rec("int"), "RealType": _rec("real"), "BoolType": _rec("bool")})
+
+
+class TypeRoundTrip(Unit):
+    prop = "C20"
+    allowed_raises = ()
+
+    def __init__(self, ref, kind):
+        self.ref, self.tkind = ref, kind
+        self.name = f"convert_type_str(proto_type(t)) for {kind} types"
+        self.doc = "the reader rebuilds the type the writer printed: same family, same bounds (absent stays absent), for bounds of any magnitude"
+
+    def target(self):
+        return H20.type_round_trip
+
+    def configure(self, eng):
+        eng.exact_strings = True
+
+    def setup(self, eng, st):
+        t = self.ref.fresh("tpe")
+        pr = Problem20.fresh("problem")
+        return [t, pr], {}, dict(t=t)
+
+    def post(self, eng, ctx, st, out):
+        if out[0] != "return":
+            return
+        built = st.ghost.get("built", ())
+        st.oblige("exactly one type is requested from the type manager", z3.BoolVal(len(built) == 1))
+        if len(built) != 1:
+            return
+        kind, lo, hi = built[0]
+        st.oblige("the same family of type is rebuilt", z3.BoolVal(kind == self.tkind))
+        if self.tkind in ("int", "real"):
+            t = ctx["t"]
+            tn = self.ref.name
+            W = zint if self.tkind == "int" else zreal
+            srt = z3.IntSort() if self.tkind == "int" else z3.RealSort()
+            for nm, got in (("_lower_bound", lo), ("_upper_bound", hi)):
+                none = B._uf(f"{tn}.{nm}.isnone", self.ref.z3sort(), z3.BoolSort())(t.z)
+                val = B._uf(f"{tn}.{nm}", self.ref.z3sort(), srt)(t.z)
+                if got is None:
+                    st.oblige(f"{nm[1:]}: absent only if it was absent", none)
+                elif isinstance(got, SUnion):
+                    raise _Unsup("optional bound handed to the type manager")
+                else:
+                    st.oblige(f"{nm[1:]}: present only if it was present, with the same value", z3.And(z3.Not(none), W(got) == val))
+        else:
+            st.oblige("no bounds for Boolean / time types", z3.BoolVal(lo is None and hi is None))
+
+
+UNITS = [TypeRoundTrip(IntT20, "int"), TypeRoundTrip(RealT20, "real"), TypeRoundTrip(BoolT20, "bool")]
+LEVEL = "other"
 EXPLANATION = __doc__
-TRUSTED = ["bounded stand-in only: the converters dispatch on message classes and parse type strings with split(); no contract within pyvc's reach "
+TRUSTED = ["library facts of the segment-string domain: int(str(i)) == i, Fraction(str(q)) == q, int() / Fraction() ignore surrounding whitespace, printed numbers "
+           "contain only characters of '-0123456789/' (pyvc/segstr.py)", "user types (names are arbitrary text) and time types: bounded layer only",
+           "whole messages: the converters dispatch on message classes; no contract within pyvc's reach "
            "(string theory + protobuf objects) expresses the round trip", "protobuf runtime (google.protobuf) serialisation is trusted",
            "ValidationResult: reason / inapplicable action / metric evaluations have no message field; compared fields are status, engine name, log messages"]
 USES_THEORY = False
